@@ -1,12 +1,12 @@
 package checks
 
 import (
-	"reflect"
-	"unsafe"
 	"fmt"
+	"reflect"
 	"sort"
 	"strings"
 	"time"
+	"unsafe"
 
 	corev1 "k8s.io/api/core/v1"
 
@@ -522,42 +522,54 @@ func init() {
 		r.Rule = fmt.Sprintf("%d command shapes (drift 1->1, multi-node 2->1, emptiness delete-only, single-node delete, drift 1->2) are started by the real disruption controller and executed by the real orchestration queue with the real lifecycle controller launching / registering / initializing the replacements (kubelet events played by the harness, informers kept current); histories of %d steps: a fair default cycle (disruption round; per replacement lifecycle + kubelet; per command queue reconcile; clock +2s) and every history with <=%d deviations: any other enabled step inserted, clock +11m (past the retry window), controller restart (all in-memory state dropped), a second disruption round, a replacement vanishing (observed by the cluster cache at once, or one step late), another actor deleting a candidate, or a failure of any individual API / provider call. "+
 			"Oracle: at every Delete of a candidate every replacement of its command exists and is Initialized and the command is in flight; live commands never share a provider id; after a fault-free settle the candidates of every command that ended unsuccessfully carry no disruption taint, no DisruptionReason condition and no deletion mark, and none was deleted by the queue. non-trivial = distinct (scenario, history)", len(c08Scenarios), steps, bound)
 		r.Assumptions = []string{"interleaving at reconcile granularity; the StartCommand fan-out inside one round is not a schedule dimension", "informers are kept current after every step, except for the one-step lag of the replacement-vanishes-unobserved event"}
-		enum.RunEveryShard(r, int64(len(c08Scenarios)), func(i int64, l *ev.Local) {
-			sc := c08Scenarios[i]
-			ex := &explore.Explorer{Bound: bound, MaxExecs: 400000, Stop: r.Expired, Shard: r.Shard, NShards: r.Shards}
-			ex.Exec = func(run *explore.Run) {
-				l.Mute = run.Replica
-				x := &c08Run{env: buildDisrupt(sc.world()), sc: sc, deletedBy: map[string]string{}, deletedByCmd: map[string]*disruption.Command{}, everInit: map[string]bool{}}
-				x.run(run, steps, !sc.fanout)
-				l.Eval()
-				l.Trace()
-				l.Nontrivial(sc.name + "/" + strings.Join(x.history, ","))
-				outcome := "no-command"
-				if len(x.cmds) > 0 {
-					outcome = fmt.Sprintf("commands=%d succeeded=%v", len(x.cmds), x.cmds[0].Succeeded)
+		// bounds outermost, lowest first: every scenario is covered with 2 deviations before the 3-deviation pass starts, so
+		// the deadline of the thorough tier cuts the deepest pass only
+		bounds := []int{bound}
+		if bound > 2 {
+			bounds = []int{2, bound}
+		}
+		for _, bound := range bounds {
+			bound := bound
+			enum.RunEveryShard(r, int64(len(c08Scenarios)), func(i int64, l *ev.Local) {
+				sc := c08Scenarios[i]
+				ex := &explore.Explorer{Bound: bound, MaxExecs: 400000, Stop: r.Expired, Shard: r.Shard, NShards: r.Shards}
+				ex.Exec = func(run *explore.Run) {
+					l.Mute = run.Replica
+					x := &c08Run{env: buildDisrupt(sc.world()), sc: sc, deletedBy: map[string]string{}, deletedByCmd: map[string]*disruption.Command{}, everInit: map[string]bool{}}
+					x.run(run, steps, !sc.fanout)
+					l.Eval()
+					l.Trace()
+					l.Nontrivial(sc.name + "/" + strings.Join(x.history, ","))
+					outcome := "no-command"
+					if len(x.cmds) > 0 {
+						outcome = fmt.Sprintf("commands=%d succeeded=%v", len(x.cmds), x.cmds[0].Succeeded)
+					}
+					l.Outcome(sc.name + ": " + outcome)
+					if x.workModelOff {
+						l.Outcome("queue work-item model off: the queue's source channel is not observable, every entry counts as work")
+					}
+					if x.latched {
+						l.Outcome("candidate deleted after a replacement that had reported Initialized vanished (latched readiness; reported, not judged)")
+					}
+					for _, v := range x.viol {
+						l.Violation(v.Sig, fmt.Sprintf("%s  [scenario=%s history=%v]", v.Msg, sc.name, x.history), map[string]any{"scenario": sc.name, "choices": run.Choices(), "faults": run.Plan(), "history": x.history, "calls": callStrings(x.env.W)})
+					}
+					if run.Used == bound && len(x.history)%6 == 0 {
+						l.Sample(map[string]any{"scenario": sc.name, "history": x.history, "outcome": outcome})
+					}
 				}
-				l.Outcome(sc.name + ": " + outcome)
-				if x.workModelOff {
-					l.Outcome("queue work-item model off: the queue's source channel is not observable, every entry counts as work")
+				ex.Explore()
+				noteDiverged(l, ex, "prefix")
+				l.Transitions += int64(ex.Points)
+				if ex.Capped {
+					l.Outcome("exploration-capped")
+					r.Exhaustive = false
 				}
-				if x.latched {
-					l.Outcome("candidate deleted after a replacement that had reported Initialized vanished (latched readiness; reported, not judged)")
-				}
-				for _, v := range x.viol {
-					l.Violation(v.Sig, fmt.Sprintf("%s  [scenario=%s history=%v]", v.Msg, sc.name, x.history), map[string]any{"scenario": sc.name, "choices": run.Choices(), "faults": run.Plan(), "history": x.history, "calls": callStrings(x.env.W)})
-				}
-				if run.Used == bound && len(x.history)%6 == 0 {
-					l.Sample(map[string]any{"scenario": sc.name, "history": x.history, "outcome": outcome})
-				}
+			})
+			if !r.Expired() {
+				r.Extra["deepest_bound_completed"] = bound
 			}
-			ex.Explore()
-			noteDiverged(l, ex, "prefix")
-			l.Transitions += int64(ex.Points)
-			if ex.Capped {
-				l.Outcome("exploration-capped")
-				r.Exhaustive = false
-			}
-		})
+		}
 	})
 }
 
